@@ -11,7 +11,7 @@ using namespace vo;
 using MatXd = Eigen::MatrixXd;
 const char* vf_driver() { return "c16_svd"; }
 static const LD C = 200, G = 4;
-static const char* KIND[] = {"prescribed-singular-values", "gaussian", "rank-deficient", "zero-tail", "scaled"};
+static const char* KIND[] = {"prescribed-singular-values", "gaussian", "rank-deficient", "zero-tail", "scaled", "near-double-leading-values"};
 static const char* STOR[] = {"dense-colmajor", "dense-rowmajor", "sparse-colmajor", "sparse-rowmajor"};
 
 template <class SVD, class Info>
@@ -49,6 +49,7 @@ static void judge(vf::Ctx& ctx, SVD& svd, const MatXd& A, const Eigen::VectorXd&
     const LD mn = std::max(std::min(m, n), 10);
     // all ncomp converged: positional comparison with the leading reference values; partly converged: each returned value is one of the ncomp leading ones (distinct)
     std::vector<char> used((size_t) ncomp, 0);
+    bool hole = false;   // partly converged and the converged values are not the leading ones: a later wanted value converged before an earlier one
     for (long i = 0; i < kk; i++)
     {
         long j = i;
@@ -58,10 +59,12 @@ static void judge(vf::Ctx& ctx, SVD& svd, const MatXd& A, const Eigen::VectorXd&
             for (long q = 0; q < ncomp && q < (long) sref.size(); q++)
                 if (!used[(size_t) q] && std::abs((LD) s[i] - (LD) sref[q]) < best) { best = std::abs((LD) s[i] - (LD) sref[q]); j = q; }
             used[(size_t) j] = 1;
+            if (j >= nconv) hole = true;
         }
         const LD al = (G * (LD) tol * nA * nA + C * mn * u * nA * nA) / std::max<LD>((LD) sref[j], 1e-300L);
         if (!within(ctx, std::string(tag.empty() ? "" : "corpus:") + "singular-value", std::abs((LD) s[i] - (LD) sref[j]), al)) bad("singular-value-differs-from-reference", std::abs((LD) s[i] - (LD) sref[j]), al);
     }
+    if (nconv < ncomp) ctx.count(hole ? "partly_converged/with-hole" : "partly_converged/prefix");
     const LD stretch = (nA / smin) * (nA / smin);
     const LD oal = (G * (LD) tol + C * mn * u) * stretch;
     MatLD GU = U.transpose() * U, GV = V.transpose() * V;
@@ -77,16 +80,21 @@ static void judge(vf::Ctx& ctx, SVD& svd, const MatXd& A, const Eigen::VectorXd&
 }
 
 template <class M> struct Holder { M mat; };
+static int g_lead = 0;   // number of leading (separated) singular values of the slow-convergence class, 0 otherwise
 
 template <class M>
 static void run(vf::Ctx& ctx, const MatXd& A, const M& Am, int kind, int stor, const Eigen::VectorXd& sref, const std::string& tag)
 {
     auto& r = ctx.rng;
     const int m = (int) A.rows(), n = (int) A.cols(), mn = std::min(m, n);
-    const int ncomp = (int) (r.coin(0.7) ? r.range(1, std::min(mn - 1, 5)) : r.range(1, mn - 1));
-    const int ncv = (int) (r.coin(0.2) ? mn : std::min(mn, std::max(ncomp + 1, 2 * ncomp + 1 + (int) r.range(0, 8))));
+    int ncomp = (int) (r.coin(0.7) ? r.range(1, std::min(mn - 1, 5)) : r.range(1, mn - 1));
+    int ncv = (int) (r.coin(0.2) ? mn : std::min(mn, std::max(ncomp + 1, 2 * ncomp + 1 + (int) r.range(0, 8))));
+    // slow-convergence class: all leading values wanted (the nearly double pair and the ones after it), little room
+    const int ncomp_slow = g_lead > 0 && r.coin(0.8) ? g_lead : 0;
+    if (ncomp_slow > 0) { ncomp = ncomp_slow; ncv = std::min(mn, ncomp_slow + (int) r.range(2, 8)); }
     const T tol1 = r.pick(std::vector<T>{1e-10, 1e-8, 1e-6}), tol2 = r.pick(std::vector<T>{1e-10, 1e-8, 1e-6});
-    const long maxit1 = r.pick(std::vector<long>{1, 2, 1000}), maxit2 = r.pick(std::vector<long>{1, 5, 1000, 1000});
+    // small limits of every size: partial convergence, also with "holes" (a later wanted value converged before an earlier one)
+    const long maxit1 = r.pick(std::vector<long>{1, 2, 3, 4, 6, 8, 1000, 1000}), maxit2 = r.pick(std::vector<long>{1, 3, 5, 7, 10, 1000, 1000, 1000});
     auto info = [&]() {
         return vf::J().kv("kind", KIND[kind]).kv("storage", STOR[stor]).kv("m", m).kv("n", n).kv("ncomp", ncomp).kv("ncv", ncv).kv("maxit_first", maxit1).kv("tol_first", (double) tol1)
             .kv("maxit_second", maxit2).kv("tol_second", (double) tol2);
@@ -138,8 +146,17 @@ void vf_run_case(vf::Ctx& ctx, long idx)
     if (shape == 0 && m <= n) m = n + (int) r.range(1, 10);
     if (shape == 1 && m >= n) n = m + (int) r.range(1, 10);
     if (shape == 2) n = m;
+    const int kind = corpus ? 4 : (int) r.range(0, 5);
+    if (kind == 5)
+    {
+        // larger problems: the bulk has to be wide enough for the iteration to take several restarts
+        m = (int) r.range(60, 140); n = (int) r.range(60, 140);
+        if (shape == 0 && m <= n) m = n + (int) r.range(1, 30);
+        if (shape == 1 && m >= n) n = m + (int) r.range(1, 30);
+        if (shape == 2) n = m;
+    }
     const int mn = std::min(m, n);
-    const int kind = corpus ? 4 : (int) r.range(0, 4);
+    g_lead = 0;
     MatXd A;
     Eigen::VectorXd sv(mn);
     if (kind == 1) A = vg::rand_gauss(r, m, n);
@@ -150,6 +167,17 @@ void vf_run_case(vf::Ctx& ctx, long idx)
         for (int i = 0; i < mn; i++) sv[i] = 1.0 / (1.0 + i) + 0.01 * r.uni();
         if (kind == 2) { const int rk = (int) r.range(1, std::max(1, mn / 2)); for (int i = rk; i < mn; i++) sv[i] = 0; }
         if (kind == 3) for (int i = mn / 2; i < mn; i++) sv[i] = 1e-9 * r.uni();
+        // a nearly double value among the leading ones converges late: the converged ones are then not a prefix of the wanted list
+        if (kind == 5)
+        {
+            // leading values well apart except one nearly double pair, followed by a dense bulk close below: slow convergence, and the pair converges last
+            const int lead = std::min(mn - 1, (int) r.range(3, 6));
+            g_lead = lead;
+            for (int i = 0; i < mn; i++) sv[i] = i < lead ? 1.8 - 0.15 * i : 1.05 * std::sqrt(r.uni(0.02, 1.0));
+            std::sort(sv.data() + lead, sv.data() + mn, std::greater<double>());
+            const int j = (int) r.range(0, std::max(0, lead - 3));
+            sv[j + 1] = sv[j] * (1.0 - std::pow(10.0, -(double) r.range(5, 9)));
+        }
         A = U * sv.asDiagonal() * V.transpose();
         // The inner symmetric solver stops at tol * max(eps^(2/3), sigma^2): for ||A||^2 below eps^(2/3) (||A|| < ~1e-5) the absolute floor decides and the requested
         // tolerance is not reached (recorded finding): such scales are confined to the fixed corpus
